@@ -432,7 +432,17 @@ func HarnessC14Deep() {
 			nots++
 		}
 	}
-	resp, qerr := s.Query(context.Background(), &proto.QueryRequest{Queries: []*proto.Query{{Expr: e}}})
+	// a long group-by list (the same two columns over and over) comes with it in one variant
+	var gb []string
+	longList := verifBool("group-by-list-of-63")
+	if longList {
+		// 63 entries over two-valued columns: 2^63 value combinations (any arithmetic on that
+		// number in a machine word is at its limit), of which at most five have rows
+		for i := 0; i < 63; i++ {
+			gb = append(gb, []string{"b", "a"}[i%2])
+		}
+	}
+	resp, qerr := s.Query(context.Background(), &proto.QueryRequest{Queries: []*proto.Query{{Expr: e, GroupBy: gb}}})
 	if unknown {
 		verifAssert(qerr != nil && resp == nil, "C14: a deeply nested request over an unknown column must be answered with an error")
 	} else {
